@@ -134,26 +134,47 @@ Proof.
   pose proof (Z.div_pos n d ltac:(lia) Hd). lia.
 Qed.
 
+(* rename_by_size succeeds on ids that are indices of the store *)
+Lemma rename_results_ok st ids :
+  Forall (fun id => 0 <= id < zlen st) ids ->
+  exists st', rename_results st ids = Ok st' /\ zlen st' = zlen st.
+Proof.
+  intro Hids. unfold rename_results.
+  assert (HM : exists rs, mapM (fun id => do r <- get_ovr st id; Ok (id, r)) ids = Ok rs).
+  { induction Hids as [|id ids Hid _ IH]; cbn [mapM]; [eexists; reflexivity|].
+    destruct (get_ovr_ok st id Hid) as (r & Er). rewrite Er. cbn [bind].
+    destruct IH as (rs & Ers). rewrite Ers. cbn [bind]. eexists. reflexivity. }
+  destruct HM as (rs & Ers). rewrite Ers. cbn [bind]. eexists. split; [reflexivity|].
+  assert (E : rename_results st ids = Ok (fold_left (fun st0 '(id, r, n) => put_ovr st0 id (set_name r n))
+              (rename_by_size rs (fun p => o_name (snd p)) (fun p => o_length (snd p))) st)).
+  { unfold rename_results. rewrite Ers. reflexivity. }
+  apply rename_results_rows in E. apply (f_equal (@length _)) in E. rewrite !map_length in E.
+  unfold zlen. rewrite E. reflexivity.
+Qed.
+
 (* =========================================================== the theorem *)
-(* proved for baits that are untagged OR tagged "Painted" only (the tag changes
-   what the namer does, not the geometry); the untagged statement is the
-   corollary below, the Painted one is Proofs/CompletionPainted.v *)
-Lemma completion_core : forall g prefix n d input pretext,
+(* The geometric part never looks at tags: the theorem is proved from the
+   PROGRESS of the lookup fold (hypothesis [Hprog]: the namer calls succeed and
+   every registered haplotig id is an index of the store).  For baits untagged
+   or tagged "Painted" only that is [pretext_progress] ([completion_core]);
+   for consistently tagged scaffolds it is Proofs/CompletionTagged.v. *)
+Lemma completion_core_gen : forall g prefix n d input pretext,
   0 < d -> d <= n ->
   Forall input_ok input ->
   NoDup (map fst input) ->
   NoDup (map key_of (in_frags input)) ->
   Forall (fun f => f_tags f = []) (in_frags input) ->
-  Forall (fun p => exists b t, snd p = RF b :: t) pretext ->
-  Forall (fun b => (f_tags b = [] \/ f_tags b = [s "Painted"]) /\ (f_strand b = 1 \/ f_strand b = -1)
-                   /\ In (f_name b) (map fst input)) (baits_of pretext) ->
+  Forall (fun b => In (f_name b) (map fst input)) (baits_of pretext) ->
   Forall (scaffold_tiled n d (baits_of pretext)) input ->
+  ((forall name rows, In (name, rows) (number_input input 0) -> rows <> [] /\ pos_rows rows) ->
+   Forall (fun b => 1 <= f_start b <= f_end b) (baits_of pretext) ->
+   exists b1, foldM (one_pretext_scaffold (number_input input 0) (error_length (n, d))) pretext
+                    (mkB [] [] [] [] (new_namer prefix) 0) = Ok b1
+              /\ Forall (fun id => 0 <= id < zlen (b_store b1)) (nm_hap_scaffolds (b_namer b1))) ->
   exists rs, remap_to_input repaired g prefix (n, d) input pretext = Ok rs.
 Proof.
-  intros g prefix n d input pretext Hd Hdn Hin Hnm Hkeys0 Hunt Hpre Hb Htile.
+  intros g prefix n d input pretext Hd Hdn Hin Hnm Hkeys0 Hunt Hnamed Htile Hprog.
   set (all := baits_of pretext) in *.
-  assert (Hnamed : Forall (fun b => In (f_name b) (map fst input)) all).
-  { eapply Forall_impl; [|exact Hb]. intros b (_ & _ & H). exact H. }
   pose proof (CompletionTiling.tiled_valid n d input all Hnamed Htile) as Hvalid.
   assert (Hdisj : ForallOrdPairs Rdisj all)
     by exact (CompletionTiling.tiled_disjoint n d input all Hnamed Htile).
@@ -182,9 +203,9 @@ Proof.
   { apply number_input_frags; [intros f id H; exact H | exact Hunt]. }
   (* A. the lookups *)
   set (b0 := mkB [] [] [] [] (new_namer prefix) 0).
-  destruct (pretext_progress inp err pretext b0 Hne Hpre) as (b1 & Hs1 & Hn1).
-  { rewrite Forall_forall in *. intros b Hbin. destruct (Hb b Hbin) as (T & _ & N).
-    split; [exact T|]. split; [apply Hvalid; exact Hbin|]. unfold inp. rewrite number_input_fst. exact N. }
+  destruct (Hprog Hne) as (b1 & Hs1 & Hn1).
+  { exact Hvalid. }
+  fold inp err b0 in Hs1.
   rewrite Hs1. cbn [bind].
   assert (L1 : LInv inp err all b1 []).
   { eapply (pretext_LInv inp err all Hkeys Hnames Hposr Herr Hvalid); [|exact Hs1].
@@ -215,19 +236,48 @@ Proof.
   assert (HF2 : ForallOrdPairs Rdisj (map o_bait (b_store b2))) by (rewrite HB2; exact HF1).
   assert (Ht2 : forall bait, In bait all -> must inp bait -> In bait (map o_bait (b_store b2))).
   { intros bait Hba Hm. rewrite HB2. destruct (Ht1 bait Hba Hm) as [[] | X]. exact X. }
-  destruct (UniqueNames.discard_loop_labs _ _ _ _ Hs2) as (_ & _ & Hn2).
+  destruct (UniqueNames.discard_loop_labs _ _ _ _ Hs2) as (Hl2 & _ & Hn2).
   (* C. the cuts *)
   destruct (cut_remaining_progress inp repaired eq_refl Hids Hidpos Hwf (bt_of (b_store b2)) b2)
     as (b3 & Hs3 & Hn3).
   { destruct HI2 as (_ & _ & (_ & F2 & _) & _). exact F2. }
   { exact (ready_at_cut inp err all Hids Hposr Hvalid Hdisj Hnext Hprev b2 HI2 HS2 HF2 Hnd2 HL2 HH2 HK2 Ht2). }
   rewrite Hs3. cbn [bind].
-  (* D. nothing to rename; the left-over scaffolds *)
-  assert (Eh : nm_hap_scaffolds (b_namer b3) = []) by (rewrite Hn3, Hn2, Hn1; reflexivity).
-  rewrite Eh, rename_results_nil. cbn [bind].
-  destruct (add_missing_fold_ok repaired g (b_found (with_store b3 (b_store b3))) inp
-              (b_namer (with_store b3 (b_store b3))) [] Hunt') as (nl & Hnl).
+  (* D. the haplotigs are renamed by size; the left-over scaffolds *)
+  destruct (UniqueNames.cut_remaining_labs _ _ _ Hs3) as (Hl3 & _ & _).
+  assert (Eh : Forall (fun id => 0 <= id < zlen (b_store b3)) (nm_hap_scaffolds (b_namer b3))).
+  { rewrite Hn3, Hn2. apply (f_equal (@length _)) in Hl2, Hl3. rewrite !map_length in Hl2, Hl3.
+    unfold zlen in *. rewrite Hl3, Hl2. exact Hn1. }
+  destruct (rename_results_ok _ _ Eh) as (st & Hst & _). rewrite Hst. cbn [bind].
+  destruct (add_missing_fold_ok repaired g (b_found (with_store b3 st)) inp
+              (b_namer (with_store b3 st)) [] Hunt') as (nl & Hnl).
   rewrite Hnl. cbn [bind]. eexists. reflexivity.
+Qed.
+
+(* proved for baits that are untagged OR tagged "Painted" only (the tag changes
+   what the namer does, not the geometry); the untagged statement is the
+   corollary below, the Painted one is Proofs/CompletionPainted.v *)
+Lemma completion_core : forall g prefix n d input pretext,
+  0 < d -> d <= n ->
+  Forall input_ok input ->
+  NoDup (map fst input) ->
+  NoDup (map key_of (in_frags input)) ->
+  Forall (fun f => f_tags f = []) (in_frags input) ->
+  Forall (fun p => exists b t, snd p = RF b :: t) pretext ->
+  Forall (fun b => (f_tags b = [] \/ f_tags b = [s "Painted"]) /\ (f_strand b = 1 \/ f_strand b = -1)
+                   /\ In (f_name b) (map fst input)) (baits_of pretext) ->
+  Forall (scaffold_tiled n d (baits_of pretext)) input ->
+  exists rs, remap_to_input repaired g prefix (n, d) input pretext = Ok rs.
+Proof.
+  intros g prefix n d input pretext Hd Hdn Hin Hnm Hkeys0 Hunt Hpre Hb Htile.
+  apply completion_core_gen; try assumption.
+  - eapply Forall_impl; [|exact Hb]. intros b (_ & _ & H). exact H.
+  - intros Hne Hvalid.
+    destruct (pretext_progress (number_input input 0) (error_length (n, d)) pretext
+                (mkB [] [] [] [] (new_namer prefix) 0) Hne Hpre) as (b1 & Hs1 & Hn1).
+    { rewrite Forall_forall in *. intros b Hbin. destruct (Hb b Hbin) as (T & _ & N).
+      split; [exact T|]. split; [apply Hvalid; exact Hbin|]. rewrite number_input_fst. exact N. }
+    exists b1. split; [exact Hs1|]. rewrite Hn1. constructor.
 Qed.
 
 Theorem completion_of_tiling_maps : completion_statement'.
